@@ -10,10 +10,10 @@ TRUSTED = ["Coq 8.16.1 kernel + vm_compute; Coquelicot auto_derive, field, CoqIn
            "axioms as printed: real numbers (sig_forall_dec, sig_not_dec), functional_extensionality_dep, classic (via Reals/Coquelicot)",
            "tools/pyk2coq.py + tools/sites.py (translators; decimal literals are read as exact decimals, not as binary doubles)",
            "special functions enter through hypotheses (KTactics.special_ok), shown satisfiable in SpecialR.v; the Chebyshev li2/nielsen code is not verified",
-           "tools/pyinst.py translates the closures over instance state of the heavy CC classes (h_q, h_g: args[0] = lambda) — obligations WFI_*; the translation is "
-           "additionally validated numerically against real instances (corr/instk.py)",
-           "other closures over instance state (asymptotic intrinsic, LeProHQ-based heavy NC incl. the Adler local terms, intrinsic S+/S-) are NOT translated: "
-           "they are covered by the numerical sweep only"]
+           "tools/pyinst.py translates the closures over instance state of the heavy CC classes (h_q, h_g: args[0] = lambda) and of the asymptotic intrinsic classes "
+           "(asy/partonic_channel.py: args = L, LO delta coefficient) — obligations WFI_*; the translation is additionally validated numerically against real instances (corr/instk.py)",
+           "the remaining closures with a singular or local part (LeProHQ-based heavy NC NNLO non-singlet: third-party dq1 and Adler; the one pair using Nielsen functions above the cut) "
+           "are NOT translated: they are covered by the numerical sweep only"]
 TOL = 2e-5
 
 
